@@ -10,6 +10,7 @@ import LZ4V.Judge.FastR
 import LZ4V.Judge.FrameDS
 import LZ4V.Judge.FileR
 import LZ4V.Judge.FastS
+import LZ4V.Judge.FastX
 import Std.Data.HashMap
 /-!
 `lz4vmodel judge <casefile> <faildir>` : walk the case records written by a harness, run the specification / model
@@ -34,6 +35,7 @@ def dispatch (blobs : Std.HashMap Nat ByteArray) (r : Rec) : Verdict :=
   | 12 => (let x := judgeFrameTrace blobs r; { fails := x.1, tags := x.2 })
   | 14 => (let x := judgeReadSession r; { fails := x.1, tags := x.2 })
   | 15 => (let x := judgeContigStream r; { fails := x.1, tags := x.2 })
+  | 16 => (let x := judgePlacedStream r; { fails := x.1, tags := x.2 })
   | 100 => {}
   | _ => { fails := [("unknown_op", s!"op={r.op}")] }
 
